@@ -77,7 +77,11 @@ class RobotsTxtChecker(object):
             file = wpull.body.new_temp_file(os.getcwd(), hint='robots')
 
         with contextlib.closing(file):
+            # The site may be behind authentication, its robots.txt too.
+            login = (getattr(request, 'username', None),
+                     getattr(request, 'password', None))
             request = Request(url)
+            request.username, request.password = login
 
             session = self._web_client.session(request)
 
@@ -87,6 +91,7 @@ class RobotsTxtChecker(object):
 
                 while not session.done():
                     if is_redirect and redirect_filter and \
+                            session.next_request().url_info.url != url and \
                             not redirect_filter(session.next_request()):
                         # Only the file itself is exempt from the URL
                         # filters, not what it redirects to.
@@ -94,6 +99,8 @@ class RobotsTxtChecker(object):
 
                         return
 
+                    # (A second request for the file itself - the one
+                    # authentication retry - is not a redirect.)
                     is_redirect = True
 
                     if session.next_request().url_info.scheme not in (
